@@ -338,6 +338,18 @@ def direct_checks(res, harness, tier, rng):
             al, ast = solo[sc.id]
             if ist == "ok":
                 res.nontrivial.add(tuple(sc.lines))
+            if issym and sc.meta.get("thread", 0) % 2 == 1 and ist == "ok" and len(res.violations) < 3:
+                # whatever the run alone says (it is a thread of its own too): the rule was set before the threads started, so
+                # every read through the link is refused and every read of the file itself succeeds
+                ops = [l.split()[2] for l in sc.lines if l.startswith("RF ")]
+                outs = [l for l in il if l.startswith("rf ")]
+                bad = [(bytes.fromhex(o[1:]), r) for o, r in zip(ops, outs)
+                       if (r.split()[1] != "E20") == bytes.fromhex(o[1:]).endswith(b"/link.conf")]
+                if bad or len(ops) != len(outs):
+                    p = common.write_replay(res, "nosymabs%d" % (len(res.violations) + 1), sc,
+                                            "econf_followSymlinks(false) was called before the threads started, yet in a thread a read through a "
+                                            "symbolic link is not refused (or a read of a regular file is): %r" % (bad[:3],), il, al)
+                    res.violations.append((p, "a restriction set before the threads started is not in force in a thread", False))
             if (il != al or ist != "ok") and len(res.violations) < 3:
                 fd = scn.first_diff(il, al)
                 what = ("with econf_followSymlinks(false) in force, links to /dev/null in some threads' drop-in directories" if issym
